@@ -230,7 +230,14 @@ def c16_build(seed, tier):
     else:
         a, b = r.sample(allv, 2) if len(allv) >= 2 else (allv[0], allv[0])
         maps = [(a, "tmp_"), (b, a), ("tmp_", b)]
-    return {"op": "rename", "kind": kind, "c": contract_data(c), "maps": maps, "via_list": r.random() < 0.5}
+    d = contract_data(c)
+    contradictory = False
+    if kind in ("absent", "same", "fresh") and r.random() < 0.3 and d["g"]:
+        # a contract (legal with simplify=False) whose guarantees contradict each other: renaming must not care
+        t0 = d["g"][0]
+        d["g"].append([{k: -v for k, v in t0[0].items()}, -t0[1] - 3.0])
+        contradictory = True
+    return {"op": "rename", "kind": kind, "c": d, "maps": maps, "via_list": r.random() < 0.5, "contradictory": contradictory}
 
 
 def _ren_terms(terms, s, t):
@@ -280,8 +287,11 @@ def c16_eval(p):
             # a renaming may also merge constraints into an ill-formed contract only if the reference is ill formed: not possible here
             out["violation"] = _viol("C16", "rename", "unexpected_rejection", "renaming %s rejected although it creates no input/output clash" % (p["maps"],), p, "c16_eval")
         return out
-    except ValueError:
+    except ValueError as e:
         out["stats"]["ValueError"] = 1
+        if p["kind"] in ("absent", "same", "fresh"):
+            # nothing is merged by such a renaming: there is no reason for the constraints to be looked at again
+            out["violation"] = _viol("C16", "rename", "raised_on_%s" % p["kind"], "renaming %s (%s) raised ValueError: %s" % (p["maps"], p["kind"], str(e)[:120]), p, "c16_eval")
         return out
     except Exception as e:
         out["violation"] = _viol("C14", "rename", type(e).__name__, "rename raised %s: %s" % (type(e).__name__, str(e)[:150]), p, "c16_eval")
